@@ -3,7 +3,7 @@ import re
 
 from .. import hirq, nf, slicer
 from ..rulelib import (check_seeds, check_roots, tree_of, slicer_of, user_nodes, writes_to_self, self_method_calls,
-                       hir_dominates, for_loops, loop_exits, def_exprs, short, while_body)
+                       hir_dominates, for_loops, loop_exits, def_exprs, short, while_body, resolver_of)
 
 POM = "probminhasher::probordminhash2::ProbOrdMinHash2::<H>::"
 OMS = "probminhasher::probordminhash2::OrdMinHashStore::<V>::"
@@ -30,10 +30,10 @@ RULES = {
 SEED_TABLE = {
     POM + "hash_set": [
         dict(callee="with_seed", allowed=["self.seed"], required=["self.seed"], optional=True),
-        dict(callee="seed_from_u64", allowed=["param data", "self.b_hasher", "self.counter", "self.seed"],
-             required=["param data", "self.counter", "self.seed"], optional=True),
-        dict(callee="from_seed", allowed=["param data", "self.b_hasher", "self.counter", "self.seed"],
-             required=["param data", "self.counter", "self.seed"], optional=True),
+        dict(callee="seed_from_u64", allowed=["param #1:*", "self.b_hasher", "self.counter", "self.seed"],
+             required=["param #1:*", "self.counter", "self.seed"], optional=True),
+        dict(callee="from_seed", allowed=["param #1:*", "self.b_hasher", "self.counter", "self.seed"],
+             required=["param #1:*", "self.counter", "self.seed"], optional=True),
     ],
 }
 
@@ -75,8 +75,13 @@ def exit_rule(ctx, facts):
                 cls = "MAX"
             elif inner == ("truth", "self.max_tracker.is_update_possible(%s)" % x, False):
                 cls = "MAX"
-            elif inner[0] == "cmp" and inner[2] in ("<=", "<") and inner[1] == "self.m" and re.match(r"^\(?(1 \+ )?nb_inserted\)?$", inner[3]):
-                cls = "COUNT"
+            elif inner[0] == "cmp" and inner[2] in ("<=", "<") and inner[1] == "self.m":
+                # slot-count bound: the other side is <counter> or <counter> + 1 for a local that starts at 0 and is incremented once per draw
+                mm = re.match(r"^\(?(?:1 \+ )?([A-Za-z_][A-Za-z0-9_]*)\)?$", inner[3])
+                if mm:
+                    ds = [nf.nf(d) for d in def_exprs(fn, mm.group(1))]
+                    if ds == ["0", "%s += 1" % mm.group(1)]:
+                        cls = "COUNT"
         if cls and (kind == "guard" or len(conds) == 1 or all(c == conds[0] or c[0] == "cmp" and c[3] == "self.max_tracker.get_max_value()" for c in conds)):
             ctx.ok("EXIT", fid, "%s exit (%s) when %s" % (kind, cls, inner), where)
         else:
@@ -97,7 +102,7 @@ def seed_rule(ctx, facts):
         r_val = {slicer.show_root(r) for r in sl.roots(c["args"][1])}
         r_idx = {slicer.show_root(r) for r in sl.roots(c["args"][2])}
         r_k = {slicer.show_root(r) for r in sl.roots(c["args"][0])}
-        bad = [r for r in (r_val | r_k) if r == "enumerate index" or r.startswith("len(param data")]
+        bad = [r for r in (r_val | r_k) if r == "enumerate index" or r.startswith("len(param #1")]
         if bad:
             ctx.violation("PROV", fid, "race value depends on the sequence position", hirq.loc(c),
                           "the value / slot offered to the store depends on %s: which pairs a position keeps would depend on where elements sit" % bad)
@@ -172,11 +177,18 @@ def occurrence_rule(ctx, facts):
                       "on some path through the per-element loop the occurrence counter of the element is not written back (no `*count += 1` on the map entry and no insert): later occurrences of the element get the same number and run the same race")
 
 
+def _store_params(fn):
+    """names of (position, value, data index, tracker) parameters of update_with_maxtracker, by position"""
+    ps = [hirq.show_pat(p["pat"]) for p in fn["params"]]
+    return ps[1], ps[2], ps[3], ps[4]
+
+
 def store_rules(ctx, facts):
     fid = OMS + "update_with_maxtracker"
     fn = facts.fn(fid)
     t = tree_of(fn)
     sl = slicer_of(fn)
+    P_POS, P_VAL, P_IDX, P_TRK = _store_params(fn)
     ws = writes_to_self(fn)
     n = 0
     for (w, f, idx) in ws:
@@ -197,12 +209,12 @@ def store_rules(ctx, facts):
                 ok = True       # shift: both arrays move the same element
             elif not m1 and not m2:
                 vals = {f: r, other: mr}
-                ok = vals["values"] == "value" and vals["indices"] == "data_idx"
+                ok = vals["values"] == P_VAL and vals["indices"] == P_IDX
         if ok:
             ctx.ok("PROV", fid, "%s[%s] = %s together with %s[%s]" % (f, i, r, other, i), hirq.loc(w))
         else:
             ctx.violation("PROV", fid, "%s write unpaired" % f, hirq.loc(w), "`%s` has no matching write of self.%s[%s] moving the same element: values and indices would fall out of step" % (nf.nf(w)[:60], other, i))
-        allowed = ["param value", "self.values"] if f == "values" else ["param data_idx", "self.indices"]
+        allowed = ["param #2:*", "self.values"] if f == "values" else ["param #3:*", "self.indices"]
         check_roots(ctx, "PROV", fid, "value written to %s" % f, hirq.loc(w), sl.roots(w["r"]), allowed)
     return n
 
@@ -213,26 +225,25 @@ def store_track(ctx, facts):
     fid = OMS + "update_with_maxtracker"
     fn = facts.fn(fid)
     t = tree_of(fn)
-    first = [nf.nf(e, True) for e in def_exprs(fn, "first_idx")]
-    last = [nf.nf(e, True) for e in def_exprs(fn, "last_idx")]
-    ups = [n for n in user_nodes(fn) if n["k"] == "MethodCall" and n["name"] == "update" and nf.nf(n["recv"]) == "maxtracker"]
-    ins = [w for (w, f, i) in writes_to_self(fn, "values") if nf.nf(w["r"], True) == "value"]
+    R = resolver_of(fn)
+    P_POS, P_VAL, P_IDX, P_TRK = _store_params(fn)
+    ups = [n for n in user_nodes(fn) if n["k"] == "MethodCall" and n["name"] == "update" and nf.nf(n["recv"]) == P_TRK]
+    ins = [w for (w, f, i) in writes_to_self(fn, "values") if nf.nf(w["r"], True) == P_VAL]
     where = hirq.loc(fn)
-    okidx = first in (["(permuted_idx * self.l)"], ["(self.l * permuted_idx)"]) and last in (["((first_idx + self.l) - 1)"], ["((self.l + first_idx) - 1)"], ["(first_idx + (self.l - 1))"])
-    if not okidx:
-        ctx.violation("STORE-TRACK", fid, "slot range", where, "a position's block must be [permuted_idx*l, permuted_idx*l + l - 1]; found first_idx = %s, last_idx = %s" % (first, last))
-        return
     if len(ups) != 1 or len(ins) != 1:
-        ctx.violation("STORE-TRACK", fid, "tracker report", where, "expected one insertion `values[..] = *value` and one maxtracker.update per accepted value; found %d / %d" % (len(ins), len(ups)))
+        ctx.violation("STORE-TRACK", fid, "tracker report", where, "expected one insertion `values[..] = *value` and one tracker update per accepted value; found %d / %d" % (len(ins), len(ups)))
         return
     u = ups[0]
-    conds = nf.all_conditions(t, u)
-    a0, a1 = nf.nf(u["args"][0], True), nf.nf(u["args"][1], True)
-    if a0 == "permuted_idx" and a1 == "self.values[last_idx]" and hir_dominates(t, ins[0], u) and nf.has_cmp(conds, "value", ("<",), "self.values[last_idx]") is not None:
-        ctx.ok("STORE-TRACK", fid, "accepted iff value < values[last]; tracker.update(position, values[last]) after the insertion", hirq.loc(u))
+    conds = nf.all_conditions(t, u, res=R)
+    a0, a1 = nf.nf(u["args"][0], True, res=R), nf.nf(u["args"][1], True, res=R)
+    lasts = {"self.values[(((%s * self.l) + self.l) - 1)]" % P_POS, "self.values[(((self.l * %s) + self.l) - 1)]" % P_POS, "self.values[((self.l + (%s * self.l)) - 1)]" % P_POS,
+             "self.values[((self.l + (self.l * %s)) - 1)]" % P_POS, "self.values[((%s * self.l) + (self.l - 1))]" % P_POS, "self.values[((self.l * %s) + (self.l - 1))]" % P_POS}
+    if a0 == P_POS and a1 in lasts and hir_dominates(t, ins[0], u) and nf.has_cmp(conds, P_VAL, ("<",), a1) is not None:
+        ctx.ok("STORE-TRACK", fid, "accepted iff value < values[last of the position's block]; tracker.update(position, values[last]) after the insertion", hirq.loc(u))
     else:
         ctx.violation("STORE-TRACK", fid, "tracker report", hirq.loc(u),
-                      "the tracker must be updated with (permuted_idx, self.values[last_idx]) read after the insertion, under `*value < self.values[last_idx]`; found update(%s, %s) under %s" % (a0, a1, conds[:2]))
+                      "the tracker must be updated with (position, self.values[position*l + l - 1]) read after the insertion, under `*value < self.values[last]`; found update(%s, %s) under %s"
+                      % (nf.nf(u["args"][0], True), nf.nf(u["args"][1], True), nf.all_conditions(t, u)[:2]))
 
 
 def signature_rules(ctx, facts):
@@ -240,20 +251,24 @@ def signature_rules(ctx, facts):
     fn = facts.fn(fid)
     t = tree_of(fn)
     sl = slicer_of(fn)
+    R = resolver_of(fn)
+    DATA = hirq.show_pat(fn["params"][1]["pat"])
     fls = for_loops(fn)
     outer = [f for f in fls if not t.enclosing_loops(f["loop"])]
-    if len(outer) != 1 or nf.nf(outer[0]["iter"], True) != "std::ops::Range{start:0, end:self.m}":
+    if len(outer) != 1 or nf.nf(outer[0]["iter"], True, res=R) != "std::ops::Range{start:0, end:self.m}":
         ctx.violation("MUSTPASS", fid, "position loop", hirq.loc(fn), "expected one loop over positions 0..self.m")
         return 0
     o = outer[0]
     pos = hirq.show_pat(o["pat"])
+    LO = {"(%s * self.l)" % pos, "(self.l * %s)" % pos}
+    HI = {"(%s + self.l)" % lo for lo in LO} | {"(self.l + %s)" % lo for lo in LO}
     n = 0
     sorts = [c for c in user_nodes(fn) if c["k"] == "MethodCall" and c["name"] in ("sort_unstable", "sort") and t.contains(o["body"], c)]
     good_sorts = []
     for s_ in sorts:
         r = nf.strip(s_["recv"])
         if r["k"] == "Index" and nf.nf(r["base"]) == "self.indices":
-            rng = nf.nf(r["idx"], True)
+            rng = nf.nf(r["idx"], True, res=R)
             m = re.match(r"^std::ops::Range\{start:(.*), end:(.*)\}$", rng)
             if m:
                 good_sorts.append((s_, m.group(1), m.group(2)))
@@ -262,64 +277,69 @@ def signature_rules(ctx, facts):
                       "no `self.indices[start..end].sort*()` in the per-position loop: the selected elements would be hashed in race-value order, not in sequence order")
         return 0
     srt, s_lo, s_hi = good_sorts[0]
-    # start = i*l, end = start + l
-    lo_def = [nf.nf(e, True) for e in def_exprs(fn, s_lo)] if re.match(r"^\w+$", s_lo) else [s_lo]
-    hi_def = [nf.nf(e, True) for e in def_exprs(fn, s_hi)] if re.match(r"^\w+$", s_hi) else [s_hi]
-    if lo_def in (["(%s * self.l)" % pos], ["(self.l * %s)" % pos]) and hi_def in (["(self.l + %s)" % s_lo], ["(%s + self.l)" % s_lo]):
+    if s_lo in LO and s_hi in HI:
         ctx.ok("MUSTPASS", fid, "sorted range is [%s*l, %s*l + l)" % (pos, pos), hirq.loc(srt))
     else:
-        ctx.violation("MUSTPASS", fid, "sorted range", hirq.loc(srt), "the sorted range is %s..%s with %s = %s, %s = %s; expected position*l .. position*l + l" % (s_lo, s_hi, s_lo, lo_def, s_hi, hi_def))
+        ctx.violation("MUSTPASS", fid, "sorted range", hirq.loc(srt), "the sorted range is %s..%s; expected position*l .. position*l + l" % (s_lo, s_hi))
     n += 1
     # every read of self.indices in the position loop is dominated by the sort and addresses start + j, j in 0..l
     reads = [x for x in user_nodes(fn) if x["k"] == "Index" and nf.nf(x["base"]) == "self.indices" and t.contains(o["body"], x) and not t.contains(srt, x)]
     inner = [f for f in fls if t.contains(o["body"], f["loop"]) and f is not o]
+    read_nf = None
     for rd in reads:
         n += 1
         il = [f for f in inner if t.contains(f["body"], rd)]
         ok_dom = hir_dominates(t, srt, rd)
-        idx = nf.nf(rd["idx"], True)
-        ok_idx = bool(il) and nf.nf(il[0]["iter"], True) == "std::ops::Range{start:0, end:self.l}" and idx in ("(%s + %s)" % (hirq.show_pat(il[0]["pat"]), s_lo), "(%s + %s)" % (s_lo, hirq.show_pat(il[0]["pat"])))
+        idx = nf.nf(rd["idx"], True, res=R)
+        jv = hirq.show_pat(il[0]["pat"]) if il else "?"
+        ok_idx = bool(il) and nf.nf(il[0]["iter"], True, res=R) == "std::ops::Range{start:0, end:self.l}" and idx in {"(%s + %s)" % (jv, lo) for lo in LO} | {"(%s + %s)" % (lo, jv) for lo in LO}
         if ok_dom and ok_idx:
-            ctx.ok("MUSTPASS", fid, "read of self.indices[%s] dominated by the sort, j in 0..l" % idx, hirq.loc(rd))
+            read_nf = "self.indices[%s]" % idx
+            ctx.ok("MUSTPASS", fid, "read of self.indices[start + %s] dominated by the sort, %s in 0..l" % (jv, jv), hirq.loc(rd))
         elif not ok_dom:
-            ctx.violation("MUSTPASS", fid, "read before sort", hirq.loc(rd), "self.indices[%s] is read without the sort of this position's range dominating it" % idx)
+            ctx.violation("MUSTPASS", fid, "read before sort", hirq.loc(rd), "self.indices[%s] is read without the sort of this position's range dominating it" % nf.nf(rd["idx"], True))
         else:
-            ctx.violation("MUSTPASS", fid, "index range", hirq.loc(rd), "self.indices[%s] is not addressed as start + j for j in 0..self.l" % idx)
+            ctx.violation("MUSTPASS", fid, "index range", hirq.loc(rd), "self.indices[%s] is not addressed as position*l + j for j in 0..self.l" % nf.nf(rd["idx"], True))
     if not reads:
         ctx.violation("MUSTPASS", fid, "no reads", hirq.loc(o["loop"]), "the position loop never reads self.indices")
     # the combining hasher
-    seeds = [x for x in user_nodes(fn) if x["k"] == "Call" and short(x.get("callee", "")) == "with_seed" and t.contains(o["body"], x)]
+    seedlets = [x for x in user_nodes(fn) if x["k"] == "Let" and "init" in x and x["pat"]["k"] == "Bind" and t.contains(o["body"], x)
+                and any(y["k"] == "Call" and short(y.get("callee", "")) == "with_seed" for y in hirq.walk(x["init"]))]
     writes = [x for x in user_nodes(fn) if x["k"] == "MethodCall" and x["name"] == "write_u64" and t.contains(o["body"], x)]
-    pushes = [x for x in user_nodes(fn) if x["k"] == "MethodCall" and x["name"] == "push" and nf.nf(x["recv"]) == "result"]
     n += 1
-    if len(seeds) == 1 and len(writes) == 1 and hir_dominates(t, seeds[0], writes[0]) and nf.nf(seeds[0]["args"][0], True) == "self.wyhash_seed":
-        ctx.ok("MUSTPASS", fid, "combining hasher created per position from self.wyhash_seed", hirq.loc(seeds[0]))
+    CH = seedlets[0]["pat"]["name"] if len(seedlets) == 1 else None
+    if CH and len(writes) == 1 and nf.nf(writes[0]["recv"]) == CH and hir_dominates(t, seedlets[0], writes[0]) and \
+            nf.nf(nf.strip(seedlets[0]["init"])["args"][0], True, res=R) == "self.wyhash_seed":
+        ctx.ok("MUSTPASS", fid, "combining hasher created per position from self.wyhash_seed", hirq.loc(seedlets[0]))
     else:
-        ctx.violation("MUSTPASS", fid, "combining hasher", hirq.loc(o["loop"]), "expected one WyHash::with_seed(self.wyhash_seed) per position dominating one write_u64; found %d / %d" % (len(seeds), len(writes)))
-    if writes:
+        ctx.violation("MUSTPASS", fid, "combining hasher", hirq.loc(o["loop"]), "expected one WyHash::with_seed(self.wyhash_seed) per position dominating one write_u64 on it; found %d / %d" % (len(seedlets), len(writes)))
+    if writes and read_nf:
         w = writes[0]
-        roots = {slicer.show_root(r) for r in sl.roots(w["args"][0])}
-        src = nf.nf(w["args"][0], True)
+        src = nf.nf(w["args"][0], True, res=R)
         hb = [x for (x, f, i) in writes_to_self(fn, "hashbuffer")]
-        okh = src.startswith("self.hashbuffer[") and len(hb) == 1 and nf.nf(hb[0]["l"], True) == src and hir_dominates(t, hb[0], w) \
-            and re.match(r"^b_hasher\.hash_one\(data\[data_idx\]\)$", nf.nf(hb[0]["r"], True))
-        dd = [nf.nf(e, True) for e in def_exprs(fn, "data_idx")]
-        okd = len(dd) == 1 and re.match(r"^(core|std)::convert::TryFrom::try_from\(self\.indices\[.*\]\)\.unwrap\(\)$", dd[0])
+        didx = "std::convert::TryFrom::try_from(%s).unwrap()" % read_nf
+        want_rhs = {"std::default::Default::default().hash_one(%s[%s])" % (DATA, didx), "std::hash::BuildHasherDefault::<H>::default().hash_one(%s[%s])" % (DATA, didx)}
+        okh = src.startswith("self.hashbuffer[") and len(hb) == 1 and nf.nf(hb[0]["l"], True, res=R) == src and hir_dominates(t, hb[0], w) \
+            and (nf.nf(hb[0]["r"], True, res=R) in want_rhs or nf.nf(hb[0]["r"], True, res=R).replace("core::convert", "std::convert") in want_rhs)
         n += 1
-        if okh and okd:
+        if okh:
             ctx.ok("MUSTPASS", fid, "write_u64(hash_one(&data[indices[start + j]])) for each selected index", hirq.loc(w))
         else:
-            ctx.violation("MUSTPASS", fid, "hashed element", hirq.loc(w), "the value fed to the combining hasher is `%s` (data_idx = %s); expected hash_one(&data[self.indices[start + j]]) via hashbuffer[j]" % (src, dd))
-        conds = nf.all_conditions(t, w, stop=o["loop"])
-        extra = [c for c in conds if c != ("cmp", "data_idx", "<", "data.len()")]
+            ctx.violation("MUSTPASS", fid, "hashed element", hirq.loc(w), "the value fed to the combining hasher is `%s` <- `%s`; expected hash_one(&%s[self.indices[position*l + j]]) via hashbuffer[j]"
+                          % (nf.nf(w["args"][0], True), nf.nf(hb[0]["r"], True)[:80] if hb else "?", DATA))
+        conds = nf.all_conditions(t, w, stop=o["loop"], res=R)
+        extra = [c for c in conds if c != ("cmp", didx, "<", "%s.len()" % DATA)]
         if extra:
-            ctx.violation("MUSTPASS", fid, "conditional hashing", hirq.loc(w), "an element is only hashed when %s" % extra)
+            ctx.violation("MUSTPASS", fid, "conditional hashing", hirq.loc(w), "an element is only hashed when %s" % nf.all_conditions(t, w, stop=o["loop"]))
     n += 1
+    body = fn["hir"]
+    RES = nf.nf(body["expr"]) if "expr" in body else None
+    pushes = [x for x in user_nodes(fn) if x["k"] == "MethodCall" and x["name"] == "push" and nf.nf(x["recv"]) == RES]
     if len(pushes) == 1 and t.contains(o["body"], pushes[0]) and not nf.all_conditions(t, pushes[0], stop=o["loop"]) and len(t.enclosing_loops(pushes[0])) == 1 \
-            and nf.nf(pushes[0]["args"][0], True) == "combine_hasher.finish()" and writes and writes[0]["sp"][1] < pushes[0]["sp"][1]:
-        ctx.ok("MUSTPASS", fid, "one unconditional result.push(combine_hasher.finish()) per position, after the hashing loop", hirq.loc(pushes[0]))
+            and CH and nf.nf(pushes[0]["args"][0], True) == "%s.finish()" % CH and writes and writes[0]["sp"][1] < pushes[0]["sp"][1]:
+        ctx.ok("MUSTPASS", fid, "one unconditional push of combine_hasher.finish() per position, after the hashing loop", hirq.loc(pushes[0]))
     else:
-        ctx.violation("MUSTPASS", fid, "result push", hirq.loc(o["loop"]), "expected exactly one unconditional result.push(combine_hasher.finish()) per position after the hashing loop")
+        ctx.violation("MUSTPASS", fid, "result push", hirq.loc(o["loop"]), "expected exactly one unconditional push of the combining hasher's finish() onto the returned vector per position, after the hashing loop")
     return n
 
 
